@@ -96,3 +96,30 @@ def dump_model(model, with_pos=False, max_objs=5000):
     if is_obj(model):
         return {"root": obj(model)}
     return {"root": prim(model)}
+
+
+class _Timeout(BaseException):
+    pass
+
+
+def with_timeout(fn, secs=3):
+    """Run fn() under a wall-clock limit; returns fn() or {"other": "Timeout"}.
+    (Nested inside the runner's per-case alarm: the previous alarm is restored.)"""
+    import signal
+    import time
+
+    def h(signum, frame):
+        raise _Timeout()
+
+    old = signal.signal(signal.SIGALRM, h)
+    remaining = signal.alarm(secs)
+    t0 = time.time()
+    try:
+        return fn()
+    except _Timeout:
+        return {"other": "Timeout"}
+    finally:
+        signal.alarm(0)
+        signal.signal(signal.SIGALRM, old)
+        if remaining:
+            signal.alarm(max(1, int(remaining - (time.time() - t0))))
